@@ -472,6 +472,27 @@ pub fn gen_op(rng: &mut Rng, sw: &Swarm, faults: bool) -> Op {
     gen_ctor(rng, sw)
 }
 
+/// dashu's random samplers driven by the simulator's generator; inserted into finished histories from a stream of its
+/// own (`insert_rand_ops`), so that the histories of every property stay what they were before the seam existed
+pub fn gen_rand_op(rng: &mut Rng, faults: bool) -> Op {
+    let mut op = Op::new("u.rand").a(slot(rng)).b(slot(rng)).dst(slot(rng)).n(rng.below(12) as i64).m((rng.next() >> 8) as i64).form(rng.below(8));
+    if faults && rng.chance(1, 4) {
+        op.fault = Some(Fault { kind: FaultKind::CbPanic, k: 1 + rng.below(6) as u32 });
+    }
+    op
+}
+
+pub fn insert_rand_ops(ops: &mut Vec<Op>, stream_seed: u64, faults: bool) {
+    let mut rng = Rng::new(stream_seed ^ 0x52414e44);
+    if !rng.chance(1, 3) || ops.is_empty() {
+        return;
+    }
+    for _ in 0..1 + rng.below(2) {
+        let at = rng.below(ops.len() as u64 + 1) as usize;
+        ops.insert(at, gen_rand_op(&mut rng, faults));
+    }
+}
+
 pub fn gen_runcfg(rng: &mut Rng) -> RunCfg {
     RunCfg { fill: rng.below(4) as u8, realloc_move: rng.chance(1, 2), misalign: rng.chance(1, 2) }
 }
